@@ -61,6 +61,11 @@ class ChainProc(plumpy.WorkChain):
     def bump(self):
         self.ctx.n = getattr(self.ctx, 'n', 0) + 1
         self.ctx.seen = getattr(self.ctx, 'seen', []) + [self.ctx.n]
+        self.ctx.log = self.ctx.seen                    # ONE list under two names
+        import collections
+        tally = collections.defaultdict(int, getattr(self.ctx, 'tally', {}))     # a dict SUBCLASS as a context value; rebuilt,
+        tally[self.ctx.n % 3] += 1                      # not changed in place (a loaded context shares its values with the bundle
+        self.ctx.tally = tally                          # it was loaded from - documented by ContextMixin)
 
 
 class TodoProc(plumpy.Process):
